@@ -638,12 +638,16 @@ def filesystem_query_contract():
 
     def h_search(name):
         def h(x, e, p, site):
-            args = [ast.unparse(a) for a in e.args]
-            ok = len(args) == 6 and not e.keywords and args[2] == 'auth_ids' and args[4] == 'version'
+            # actuals bound to the callee's REAL signature (positional or keyword, any order): what reaches the formals auth_ids / version / query
+            from vf.pyvc.lib import real_sig, bind_actuals
+            sig = real_sig(x.src_root, 'stix2/datastore/filesystem.py', name)
+            nodes = list(e.args) + [k.value for k in e.keywords]
+            bound, errors = bind_actuals(sig, e, nodes)
+            if errors or not all(f in bound for f in ('query', 'auth_ids', 'version')) or any(isinstance(bound[f], tuple) for f in ('query', 'auth_ids')):
+                raise Unsupported(site + f' call does not bind to the real signature of {name}: {errors}')
+            ok = ast.unparse(bound['auth_ids']) == 'auth_ids' and not isinstance(bound['version'], tuple) and ast.unparse(bound['version']) == 'version'
             x.oblige(f'call({name}): auth_ids and the caller\'s version are forwarded', p.pc, z3.BoolVal(bool(ok)), p.exact, 'call-requires')
-            if not e.args:
-                yield p, Val('opaque', x='type_results'); return
-            t = filters_arg(x, e.args[0], p, site); u = z3.FreshConst(E.S, 'u')
+            t = filters_arg(x, bound['query'], p, site); u = z3.FreshConst(E.S, 'u')
             x.oblige(f'call({name}): every object read is filtered by exactly the query, the source\'s own filters and the ones handed down', p.pc, z3.ForAll([u], union_is(t, u)), p.exact, 'call-requires')
             yield p, Val('opaque', x='type_results')
         return h
